@@ -155,3 +155,48 @@ func VerifH_C01_iprequest() {
 	verifAssert(ig.calls == 1, "address source not started exactly once for a port-less pass")
 	verifCover("done")
 }
+
+// VerifH_C01_ipgenRetain: the real generator with the real permutation iterator over a /ONES
+// subnet at a solver-chosen base; the consumer keeps every address it was handed (as the later
+// pipeline stages do: Request.DstIP is that slice) and looks at them only after the stream has
+// ended: every address of the subnet exactly once, none changed after it was handed over.
+func VerifH_C01_ipgenRetain() {
+	ones := verifParam("ONES", 25)
+	base := ndBytes("base", 4)
+	if verifParam("FIXBASE", 0) == 1 {
+		// large subnets: the base is pinned (172.20.x.0), the run is then a concrete execution
+		// of the real pipeline - what is explored is the retention pattern, not the address
+		verifAssume(base[0] == 172 && base[1] == 20 && base[2] == 6 && base[3] == 0)
+		base = []byte{172, 20, 6, 0}
+	}
+	mask := net.CIDRMask(ones, 32)
+	r := &Range{DstSubnet: &net.IPNet{IP: net.IP(base), Mask: mask}}
+	ch, err := NewIPGenerator().IPs(context.Background(), r)
+	verifAssert(err == nil, "valid IPv4 subnet refused")
+	if err != nil {
+		return
+	}
+	var kept [][]byte
+	for g := range ch {
+		ip, gerr := g.GetIP()
+		verifAssert(gerr == nil && len(ip) == 4, "address generator produced an error element or a non-IPv4 address")
+		if len(ip) == 4 {
+			kept = append(kept, ip)
+		}
+	}
+	size := 1 << uint(32-ones)
+	verifAssert(len(kept) == size, "number of addresses differs from the size of the subnet")
+	m32 := uint32(mask[0])<<24 | uint32(mask[1])<<16 | uint32(mask[2])<<8 | uint32(mask[3])
+	netw := (uint32(base[0])<<24 | uint32(base[1])<<16 | uint32(base[2])<<8 | uint32(base[3])) & m32
+	seen := make([]bool, size)
+	for _, ip := range kept {
+		got := uint32(ip[0])<<24 | uint32(ip[1])<<16 | uint32(ip[2])<<8 | uint32(ip[3])
+		verifAssert(got&m32 == netw, "address outside the target subnet")
+		off := int(verifConcretize(uint64(got &^ m32)))
+		if off < size {
+			verifAssert(!seen[off], "an address was handed out twice (or an earlier one was overwritten later)")
+			seen[off] = true
+		}
+	}
+	verifCover("done")
+}
